@@ -726,7 +726,9 @@ class QueueWorld(object):
         rec['ret'] = self.world.now
         rec['steps_at_ret'] = self.world.loop.steps
         self.ev('flush-return')
-        if rec['steps_at_ret'] != rec['steps_at_call'] or rec['ret'] != rec['call']:
+        # with a bounded store pool flush() legitimately waits for a free slot (Pool.spawn is the back-pressure point); the
+        # property only rules out waiting on the scheduler loop, which is observable when the pool cannot be the reason
+        if self.cfg.get('store_pool') is None and (rec['steps_at_ret'] != rec['steps_at_call'] or rec['ret'] != rec['call']):
             self.flag('flush-waited', 'flush() called at t=%g returned at t=%g after %d loop events (timers/environment) fired'
                       % (rec['call'], rec['ret'], rec['steps_at_ret'] - rec['steps_at_call']))
 
